@@ -332,6 +332,30 @@ def fork_map(fn, n, jobs):
     return out
 
 
+def second_backend(solver, timeout_s):
+    """Re-check one query with the system z3 (4.8.12) through SMT-LIB2 text."""
+    import subprocess
+    import tempfile
+    txt = solver.to_smt2()
+    with tempfile.NamedTemporaryFile('w', suffix='.smt2', delete=False, dir=os.environ.get('PYVC_TMP', '/tmp')) as f:
+        f.write(txt)
+        name = f.name
+    t0 = time.time()
+    try:
+        p = subprocess.run(['/usr/bin/z3', '-T:%d' % timeout_s, '-smt2', name], capture_output=True, text=True,
+                           timeout=timeout_s + 10)
+        out = (p.stdout.strip().split('\n') or ['?'])[0].strip()
+    except Exception as e:          # noqa
+        out = 'error: %s' % e
+    finally:
+        try:
+            os.unlink(name)
+        except OSError:
+            pass
+    verdict = out if out in ('sat', 'unsat', 'unknown') else ('unknown' if 'timeout' in out else 'error')
+    return {'solver': '/usr/bin/z3 4.8.12 (SMT-LIB2)', 'verdict': verdict, 'time_s': round(time.time() - t0, 3)}
+
+
 def _verdict(r):
     return 'discharged' if r == z3.unsat else ('failed' if r == z3.sat else 'unknown')
 
@@ -559,6 +583,12 @@ def verify_contract(con, instance=None, timeout_ms=30000, resolver=None, want_sm
                 rec['reason'] = solver.reason_unknown()
             if want_smt:
                 rec['smt2'] = solver.to_smt2()
+            if os.environ.get('PYVC_BACKEND2') and verdict == 'discharged':
+                rec['backend2'] = second_backend(solver, int(os.environ.get('PYVC_BACKEND2_TIMEOUT', '60')))
+                if rec['backend2']['verdict'] == 'sat':
+                    # the two solvers disagree: never count this as discharged
+                    rec['verdict'] = 'unknown'
+                    rec['reason'] = 'back ends disagree: z3 %s says unsat, %s says sat' % (z3.get_version_string(), rec['backend2']['solver'])
             if debug:
                 print('[pyvc]   %s %s %.2fs L%s' % (verdict, ob.name, dt, ob.lineno), file=sys.stderr, flush=True)
             return rec
